@@ -550,6 +550,8 @@ package nsqd
 //@ func (n *NSQD) Main() error
 //@   props C05 C10
 //@   requires n != nil
+//   (round 7) Main runs on a daemon built by New (New/[built]): what its goroutines need is checked where they are started
+//@   requires[built-by-New] r7Built(n)
 //@   ensures[one-server-per-listener] r5FServersBuilt == old(r5FServersBuilt) + (n.httpListener != nil ? 1 : 0) + (n.httpsListener != nil ? 1 : 0)
 //@   ensures[https-server-enforces-tls] n.httpsListener != nil ==> r5FServerFor == n && r5FServerTLSEnabled && r5FServerTLSRequired
 //@   ensures[plain-server-gate-follows-the-option] n.httpsListener == nil && n.httpListener != nil ==> r5FServerFor == n && !r5FServerTLSEnabled && r5FServerTLSRequired == (curOpts(n).TLSRequired == TLSRequired)
